@@ -44,7 +44,7 @@ RULE = ('Hypothesis: CamxSpec (uamiv[AVERAGE EMISSIONS AIRQUALITY INSTANT] '
         'derived IOAPI attributes (TSTEP, SDATE...) are not compared.  '
         'Non-trivial: (>1 variable and nz>1 and steps>1) or a '
         'day/year/century/leap roll-over inside the file or a denormal / '
-        '-0.0 payload.  Distinct by sha1 of the case spec.' + '  Domain by construction: lateral_boundary nx, ny >= 2 (an edge needs its two corner cells), EMISSIONS nz = 1, AIRQUALITY one step, steps of whole hours (lateral_boundary 1 h), every instant incl. the last end time inside 1970-2069, species names not DATE/TFLAG/ETFLAG, a 3-variable cloud_rain file whose size is also a whole number of 5-variable steps is not generated (the format stores no variable count), old-style landuse with at most one optional field.  The reader route is not used for input classes in which the reader is known (C09 findings) not to present the reference file: single-step met files, old-style landuse, 1x1 wind, files straddling 1999/2000; these use the array route.' + '  The write must leave its source unchanged (snapshot of dimensions, variable data, TFLAG/ETFLAG, header attributes before and after) and writing the same in-memory object twice must give byte-identical files.  Free-text header fields (uamiv/lateral_boundary NOTE, cloud_rain descriptor) are drawn with leading, inner and trailing blanks, empty and full.' + '  Round-5 extensions: route pnc creates the data variables in a drawn permutation; route refread opens 0/1 bystander files of the same format and another shape (kept alive or closed) between reading f and writing it; the reader route is used for every input class except 1x1 wind.')
+        '-0.0 payload.  Distinct by sha1 of the case spec.' + '  Domain by construction: lateral_boundary nx, ny >= 2 (an edge needs its two corner cells), EMISSIONS nz = 1, AIRQUALITY one step, steps of whole hours (lateral_boundary 1 h), every instant incl. the last end time inside 1970-2069, species names not DATE/TFLAG/ETFLAG, a 3-variable cloud_rain file whose size is also a whole number of 5-variable steps is not generated (the format stores no variable count), old-style landuse with at most one optional field.  The reader route is not used for input classes in which the reader is known (C09 findings) not to present the reference file: single-step met files, old-style landuse, 1x1 wind, files straddling 1999/2000; these use the array route.' + '  The write must leave its source unchanged (snapshot of dimensions, variable data, TFLAG/ETFLAG, header attributes before and after) and writing the same in-memory object twice must give byte-identical files.  Free-text header fields (uamiv/lateral_boundary NOTE, cloud_rain descriptor) are drawn with leading, inner and trailing blanks, empty and full.' + '  Round-5 extensions: route pnc creates the data variables in a drawn permutation; route refread opens 0/1 bystander files of the same format and another shape (kept alive or closed) between reading f and writing it; the reader route is used for every input class except 1x1 wind.' + '  Round-7 extensions: payload modes zeros (whole file +-0 mixture / all -0.0 / all denormals) and zslab (every third 2-D field a +-0 mixture containing -0.0); on the reader route the re-read file of a met format may be cut to a TSTEP/LAY/ROW/COL window with sliceDimensions before it is written (the round trip is judged on the window).')
 ASSUMPTIONS = ['the in-memory files carry the metadata the writers read '
                '(TFLAG, VAR-LIST, TSTEP, CAMx header attributes, LSTAGGER, '
                'FILEDESC, _newstyle) as the library readers present them',
@@ -84,6 +84,7 @@ def cases(draw, tier='quick'):
         # kept alive or closed again) between reading f and writing it
         spec['bystander'] = draw(st.sampled_from([None, None, 'alive',
                                                   'closed']))
+        draw(C.input_slices(spec))
     if fmt == 'wind' and route != 'refread' and spec['lstagger'] is None:
         spec['lstagger'] = draw(st.sampled_from([-1, 0, 1]))
     return spec
@@ -105,6 +106,8 @@ def describe(r, spec, m):
             r.label('masked-input:' + spec['mask']['kind'])
     if spec['route'] == 'refread':
         r.label('bystander:%s' % spec.get('bystander'))
+        if spec.get('slice'):
+            r.label('sliced-before-write')
     if fmt == 'uamiv':
         r.label('name:' + spec['name'], 'iproj:%d' % spec['proj']['iproj'])
     nt = spec.get('nsteps', 1)
@@ -259,7 +262,8 @@ def check_case(spec):
     fmt = spec['fmt']
     route = spec['route']
     paths = []
-    f = g = by = None
+    f = g = by = f0 = None
+    orig = spec
     try:
         # ---------------- f
         n0 = len(r.failures)
@@ -268,9 +272,15 @@ def check_case(spec):
             paths.append(p0)
             with open(p0, 'wb') as fo:
                 fo.write(C.ref_bytes(spec))
-            ok, f = guard(r, 'build-refread', C.open_lib, spec, p0, 'memmap')
+            ok, f0 = guard(r, 'build-refread', C.open_lib, spec, p0, 'memmap')
+            f = f0
+            if ok and spec.get('slice'):
+                # the re-read file is cut to a window before it is written
+                ok, f = guard(r, 'build-slice', C.apply_slice, spec, f0)
+                if ok:
+                    spec, m = C.sliced(spec, m)
             if ok and spec.get('bystander'):
-                bs = C.bystander_spec(spec)
+                bs = C.bystander_spec(orig)
                 pb = libstate.scratch_path('.by.' + fmt)
                 paths.append(pb)
                 with open(pb, 'wb') as fo:
@@ -362,8 +372,8 @@ def check_case(spec):
                  'bytes, write(f) %d; first difference at offset %d%s' % (
                      len(b2), len(b1), i, where))
     finally:
-        C.drop(f, g, by)
-        f = g = by = None
+        C.drop(f, g, by, f0)
+        f = g = by = f0 = None
         C.cleanup(*paths)
     return r
 
